@@ -100,6 +100,17 @@ Definition lit_of (field : string) : string :=
 
 Definition nonempty (s : string) : bool := negb (String.eqb s "").
 
+(* BuildImageFromLayers works on a copy made with oic.MergeInto(&ImageConfiguration{}).
+   MergeInto carries every field read below EXCEPT VCSUrl, so inside
+   BuildImageFromLayers ic.VCSUrl is always "" and the source/revision stores
+   are never reached (finding C12-F2). The index generator reads the caller's
+   configuration directly and is not affected. *)
+Definition copy_for_build (ic : image_config) : image_config :=
+  {| ic_shell_fragment := ic_shell_fragment ic; ic_command := ic_command ic; ic_cmd := ic_cmd ic;
+     ic_workdir := ic_workdir ic; ic_run_as := ic_run_as ic; ic_stop_signal := ic_stop_signal ic;
+     ic_volumes := ic_volumes ic; ic_env := ic_env ic; ic_annotations := ic_annotations ic;
+     ic_vcs_url := "" |}.
+
 Section Config.
   Variable shlex : string -> option (list string).   (* github.com/google/shlex Split; None = error *)
   Variable rfc3339 : Z -> string.                    (* created.Format(time.RFC3339) *)
@@ -119,8 +130,9 @@ Section Config.
     if nonempty s then match shlex s with Some l => Ok l | None => Err end else Ok dflt.
 
   (* [base] = config of the base image (empty.Image: all fields empty) *)
-  Definition build_config (base : oci_config) (ic : image_config) (created : Z) (arch : string)
+  Definition build_config (base : oci_config) (oic : image_config) (created : Z) (arch : string)
       (dord eord : list string) : res oci_config :=
+    let ic := copy_for_build oic in
     let labels := vcs_annotations image_annotation_stores (ic_vcs_url ic) created (ic_annotations ic) in
     let plat := to_oci_platform arch in
     do ep <- (if nonempty (ic_shell_fragment ic)
